@@ -304,6 +304,15 @@ def system_model(ctx):
             def __init__(self, view):
                 self.view = view
 
+            @property
+            def pos(self):
+                return self.view['pos']
+
+            def prop(self, key=None, index=None, value=None, a_id=None):
+                if value is None:
+                    return list(self.view) if key is None else np.asarray(self.view[key], dtype=object).copy()
+                self.view[key] = np.asarray(value, dtype=object)
+
         def mkBox(model=None, **kw):
             made['box_model'] = model
             return box
@@ -313,28 +322,29 @@ def system_model(ctx):
             made['atoms'] = AtomsR(dict(env['prop']))
             return made['atoms']
         init = ctx.fn(SYS, 'System.__init__')
-        env0 = {'model': m, 'atoms': None, 'box': None, 'scale': False, 'pbc': None, 'symbols': None, 'masses': None, 'safecopy': False}
-        blocks = [s for s in init.body if isinstance(s, ast.If) and norm(s.test) == 'model is not None']
-        ctx.need(len(blocks) == 2, 'System.__init__: expected the model-reading branch and the scaled post-processing branch, found %d' % len(blocks))
-        ev = _ev(ctx, SYS, {'Box': mkBox, 'Atoms': mkAtoms})
+        AtomsR.natypes = 2
+        AtomsR.natoms = 2
+
+        class _SysG(PyStub):
+            def _AtomsIndexer(self, host):
+                return ('indexer', host)
+        me2 = SymObj(ctx.fn(SYS, 'System'), {}, 'self')
+        ev = _ev(ctx, SYS, {'Box': mkBox, 'Atoms': mkAtoms, 'System': _SysG(), 'aslist': lambda v: (list(v) if isinstance(v, (list, tuple)) else [v])})
         try:
-            q = [x for x in ev.block([blocks[0]], [Path(dict(env0))]) if x.done is None]
-            ctx.need(len(q) == 1, 'System(model=...) branch does not reduce to one path')
-            e1 = q[0].env
-            me2 = SymObj(ctx.fn(SYS, 'System'), {'_System__atoms': made['atoms'], '_System__box': box}, 'self')
-            e1['self'] = me2
-            q2 = [x for x in ev.block([blocks[1]], [Path(e1)]) if x.done is None]
-            ctx.need(len(q2) == 1, 'System(model=...) scaled branch does not reduce to one path')
+            q = [x for x in ev.run_fn(init, [me2], {'model': m}) if x.done == 'return']
+            ctx.need(len(q) == 1, 'System(model=...) does not reduce to one path (%s)' % tag)
         except WouldRaise as e:
             ctx.ob('SYSTEM-MODEL', SYS + '::System.__init__', '%s: reading the model back runs to completion' % tag, False, str(e), node=init, key=tag + ' read runs')
             continue
         except Opaque as e:
             raise AnalysisError('System(model=) (%s): %s' % (tag, e))
+        ctx.need('atoms' in made, 'System(model=...) does not build its atoms from the model (%s)' % tag)
+        e1 = {'pbc': me2.attrs.get('_System__pbc'), 'symbols': me2.attrs.get('_System__symbols'), 'masses': me2.attrs.get('_System__masses')}
         view = made['atoms'].view
         bad = [k for k in props if k not in view or np.shape(view[k]) != np.shape(props[k]) or not all(sp.simplify(a_ - b_) == 0 for a_, b_ in zip(np.ravel(view[k]), np.ravel(props[k])))]
         ctx.ob('SYSTEM-MODEL', SYS + '::System.__init__', '%s: every per-atom property read back equals the one written (box-relative storage converted back with the same box)' % tag, not bad,
                'differs: %s' % bad, node=init, key=tag + ' read props')
-        okh = list(e1.get('pbc')) == [True, False, True] and tuple(e1.get('symbols')) == ('Al', None) and tuple(e1.get('masses')) == (tuple(masses) if any(x is not None for x in masses) else ())
+        okh = e1.get('pbc') is not None and [bool(x_) for x_ in e1['pbc']] == [True, False, True] and tuple(e1.get('symbols') or ()) == ('Al', None) and tuple(e1.get('masses') or ()) == tuple(masses)
         ctx.ob('SYSTEM-MODEL', SYS + '::System.__init__', '%s: periodic flags, symbols and masses read back are those of the system' % tag, bool(okh),
                'pbc %s symbols %s masses %s' % (e1.get('pbc'), e1.get('symbols'), e1.get('masses')), node=init, key=tag + ' read header')
     ctx.floor('SYSTEM-MODEL', n, 4)
